@@ -38,7 +38,7 @@ pub fn run(run: &mut Run) {
     crate::umh::install();
     common_assumptions(run);
     known_findings(run);
-    let n = run.cases(16_000, 800_000);
+    let n = run.cases(48_000, 1_500_000);
     let max_ops = if run.tier == crate::engine::Tier::Quick { 32 } else { 96 };
     run.sub(
         "error_states",
